@@ -33,6 +33,11 @@ MERGE_RULE = ("traces of atomic steps through the real NewMergeHandler over 2-4 
               "NOTICE of the same child and a client message is complete when every child has received it, so the step order is forced without timeouts; stream 2 additionally keeps the same "
               "event id / COUNT subscription id in flight several times; non-trivial = every trace; distinct = distinct output line")
 
+ROUTER_RULE = ("2-4 concurrent sessions on ONE real RouterHandler (buffer 1/2/3/5), 10-32 operations driven one at a time: REQ (1-3 filters on kinds/authors/since/until/limit/#t; re-issued ids replace), "
+               "CLOSE (open and non-open ids), EVENT, COUNT, disconnect, stop-reading / resume; an operation is complete when its direct reply (EOSE/OK/COUNT) is read, and after every EVENT each reading "
+               "connection is flushed with a private barrier subscription + barrier event travelling FIFO through its queue, so what each connection received for that EVENT is known without "
+               "timeouts; a connection that stopped reading is judged when it resumes; built with -race; non-trivial = every history; distinct = distinct output line")
+
 PROPS = {
     "C02": {
         "lean_modules": ["MocProps.C02"],
@@ -199,6 +204,24 @@ PROPS = {
                       "model and the race detector watches the run.",
         "level_note": "Trusted: Lean kernel + standard axioms; harness/driver; the Go race detector; sync.RWMutex. Real thread interleavings are sampled, not enumerated.",
         "assumptions": ["logical-clock stamps bracket the cache call (the handler path adds a barrier COUNT that touches no cache state)"],
+    },
+    "C07": {
+        "lean_modules": ["MocProps.C07"], "theorem_files": ["MocProps/C07.lean"],
+        "gen_groups": ["Router", "Matcher"], "harness_prop": "router", "driver_prop": "router", "race": True,
+        "monitors": ["delivery", "reply"],
+        "n_quick": 1500, "n_thorough": 15000, "thorough_seeds": 3,
+        "rule": ROUTER_RULE,
+        "level_text": "Partial by nature (scheduler). On the LTS model of the registry at critical-section granularity (source text of Subscribe/Unsubscribe/UnsubscribeAll/Publish, of safeMap's methods, of "
+                      "trySendCtx, of the session loop pinned by router_source_pinned; SendIfMatch's test regenerated), for EVERY state and so every interleaving: a visit appends to the visited "
+                      "connection's queue exactly one EVENT s e, labelled with its own id, per subscription (s, filters) registered for it at that moment whose filters match per NIP-01, as far as there "
+                      "is room, and touches nothing else (visit_effect, matched_spec, visit_adds_only_open_matching, visit_delivers_all); drops happen only against a full queue and pending deliveries "
+                      "are never removed or reordered (enqueue_eq, enqueue_drop_only_when_full, enqueue_prefix); whether a publisher's step is enabled never depends on a queue (enabled_indep_queues, "
+                      "visit_enabled); a publish visits a connection at most once (visit_once); REQ/CLOSE/disconnect take effect at once (subscribe_registers, unsubscribe_removes, "
+                      "unsubAll_removes_everything); a publish that runs to completion leaves in every connection's queue exactly the owed deliveries (publish_queues, with reg_keys_nodup). "
+                      "Runtime-validated, not proved: that Go's RWMutex/channel runtime realises only LTS schedules, the real-time must/may rule for overlapping operations, per-publisher order.",
+        "level_note": "Trusted: Lean kernel + standard axioms; go2lean (bodytext pins); harness/driver; Go's sync.RWMutex, channels and race detector.",
+        "assumptions": ["histories are sequentialised by the harness (every operation completes before the next); overlapping operations are exercised only by the barrier traffic and the -race build",
+                        "generated filters always name kinds or authors so that barrier events match no generated subscription"],
     },
     "C08": {
         "lean_modules": ["MocProps.C08"], "theorem_files": ["MocProps/C08.lean"],
